@@ -205,10 +205,6 @@ func CheckDelivery(ix *Index) (out []Finding, obs map[string]int64) {
 			}
 			obs["items_exported"]++
 			if it.Full != exp.full {
-				if it.Alt != "" && it.Alt == exp.alt {
-					obs["metric_metadata_differs(reported only)"]++
-					continue
-				}
 				path := firstDiffPath(exp.full, it.Full)
 				out = append(out, Finding{"C05", "exported item differs from what was submitted at " + path,
 					fmt.Sprintf("uid %s export %d\nsubmitted: %s\nexported:  %s", it.UID, n, exp.full, it.Full)})
@@ -641,6 +637,12 @@ func CheckContexts(ix *Index) (out []Finding, obs map[string]int64) {
 			ended[s.SpanContext().SpanID().String()] = s
 		}
 	}
+	spanEnding := map[string]int{} // request id -> sequence number of its span_ending event
+	for _, e := range r.log {
+		if e.Kind == "span_ending" {
+			spanEnding[e.Req] = e.Seq
+		}
+	}
 	// first request id per context identity (that is the value stored in the shared context)
 	ctxOwner := map[string]string{}
 	for _, spec := range r.Sc.Reqs {
@@ -694,6 +696,12 @@ func CheckContexts(ix *Index) (out []Finding, obs map[string]int64) {
 					}
 					if !links[csc.SpanID().String()] {
 						add("export span lacks a link to a contributing request's span", fmt.Sprintf("export %d: contributor %s (span %s) not among %d links", n, k, csc.SpanID(), len(links)))
+					}
+					if se, ok := spanEnding[owner]; ok && se < x.begin.Seq {
+						// the caller ended its span before this export began: AddLink on an ended span is a
+						// no-op of the SDK, so a link back cannot be demanded (the forward link above still is)
+						obs["link_backs_not_demanded_span_ended_before_export"]++
+						continue
 					}
 					cs := ended[csc.SpanID().String()]
 					back := false
